@@ -3,7 +3,7 @@ CONSTANTS NAcc = 1
           NSlot = 1
           MaxVal = 1
           MaxDiffs = {1, 2}
-          HistLimits = {0, 2}
+          HistLimits = {2}
           Policies = {"any"}
           Asyncs = {TRUE}
           MaxId = 3
